@@ -3693,10 +3693,35 @@ static bool is_function(Token *tok) {
   return ty->kind == TY_FUNC;
 }
 
+// [C11 6.2.7p4, 6.9.2p2] All declarations of an object contribute to
+// its type: an array declared without a bound (`int a[];`) that is
+// declared with one elsewhere (`extern int a[5];`) has that bound, and
+// a tentative definition whose type is still incomplete at the end of
+// the translation unit has one element.
+static void complete_array_types(void) {
+  for (Obj *var = globals; var; var = var->next) {
+    if (var->is_function || var->ty->kind != TY_ARRAY || var->ty->array_len >= 0)
+      continue;
+
+    for (Obj *var2 = globals; var2; var2 = var2->next) {
+      if (!var2->is_function && !strcmp(var->name, var2->name) &&
+          var2->ty->kind == TY_ARRAY && var2->ty->array_len >= 0) {
+        var->ty = var2->ty;
+        break;
+      }
+    }
+
+    if (var->ty->array_len < 0 && var->is_tentative)
+      var->ty = array_of(var->ty->base, 1);
+  }
+}
+
 // Remove redundant tentative definitions.
 static void scan_globals(void) {
   Obj head;
   Obj *cur = &head;
+
+  complete_array_types();
 
   for (Obj *var = globals; var; var = var->next) {
     if (!var->is_tentative) {
